@@ -17,6 +17,7 @@ EXPLANATION = (
     "GeneratorExit) is re-thrown into the generator as exc_info(), no handler other than StopIteration "
     "surrounds the resumption, and on StopIteration the wrapper returns the exception's .value; metadata via "
     "functools.wraps; inline_callbacks = inlineCallbacks(eliot_friendly_generator_function(f))."
+    "  The set/reset pairing rules of C04 are included: tokens are kept per use, so interleaved generators sharing one Action never reset each other's context."
 )
 RULE = "obligation = rule instance bound to a call site / handler / assignment of the wrapper; non-trivial = CFG paths examined"
 ASSUMPTIONS = [
@@ -319,3 +320,7 @@ def run(chk):
         elif not resumers and not any(o.status == "VIOLATED" for o in chk.obs):
             raise AnalysisError("wrapper: resumption through method values -- value transparency rules not modelled for this shape")
     rule_meta(chk)
+    # "plus the actions it has entered since": every scoping construct used inside a generator keeps its own token per use,
+    # so interleaved generators sharing an Action never reset each other's context
+    from . import c04
+    c04.rule_pairs(chk)
